@@ -36,6 +36,8 @@ type dbSuite struct {
 	scratch  string
 	usedKeys map[string][][]byte
 	nkeys    int
+	bigTx    int // kvbig: transactions begun so far
+	bigLoad  int // kvbig: number of leading bulk-load transactions
 	openLine string
 	// crash-image capture (armed by a `capture` line for the next commit / merge)
 	capture  bool
@@ -69,7 +71,7 @@ func init() {
 	suites["db"] = func() suite {
 		return &dbSuite{profile: dbProfile}
 	}
-	for _, p := range []string{"kv", "structs", "mixed", "merge", "iso", "list", "set", "zset", "crash", "mcrash", "backup", "mergekv"} {
+	for _, p := range []string{"kv", "structs", "mixed", "merge", "iso", "list", "set", "zset", "crash", "mcrash", "backup", "mergekv", "kvbig"} {
 		p := p
 		suites["db-"+p] = func() suite { return &dbSuite{profile: p} }
 	}
@@ -157,7 +159,7 @@ func (s *dbSuite) snapshot(op, path string, off int64, data []byte) {
 	}
 	if op == "write" && strings.HasSuffix(path, ".dat") && len(data) > 8 {
 		name := path[strings.LastIndex(path, "/")+1:]
-		for _, k := range []int{5, 21, 42, len(data) - 1} {
+		for _, k := range []int{5, 21, 42, 42 + (len(data)-42)/2, len(data) - 1} {
 			if k >= len(data) || k <= 0 {
 				continue
 			}
@@ -262,6 +264,7 @@ func (s *dbSuite) newCase(id int) {
 	s.inTx, s.opened, s.pendObs = false, false, false
 	s.usedKeys = map[string][][]byte{}
 	s.nkeys = 0
+	s.bigTx, s.bigLoad = 0, 3+id%9
 	s.openLine = ""
 	s.interned = nil
 	s.images, s.imgNext, s.armedGen, s.capture, s.armed, s.mergeNext = nil, 0, false, false, false, false
@@ -818,9 +821,17 @@ func (s *dbSuite) gen(r *rand.Rand, step int) string {
 		if s.profile == "kv" || s.profile == "iso" {
 			mode = r.Intn(2)
 		}
+		if (s.profile == "crash" || s.profile == "mixed" || s.profile == "merge") && r.Intn(4) == 0 {
+			mode = 1 // key-only index: the generator then restricts itself to key/value operations
+		}
 		seg := []int{64, 100, 128, 200, 256, 512}[r.Intn(6)]
 		if s.profile == "kv" && r.Intn(3) == 0 {
 			seg = 96 // = 2 records of 48 bytes exactly: exactly-full segments
+		}
+		if s.profile == "kvbig" {
+			// large buckets: B+ trees of two and three levels, long scans, paging far into a bucket
+			mode = r.Intn(2)
+			seg = []int{256, 512, 1024, 4096}[r.Intn(4)]
 		}
 		if s.openLine == "" {
 			s.openLine = fmt.Sprintf("open %d %d %d %d %d", mode, r.Intn(2), r.Intn(2), r.Intn(2), seg)
@@ -867,6 +878,16 @@ func (s *dbSuite) gen(r *rand.Rand, step int) string {
 		s.inTx = true
 		s.txW = r.Intn(5) != 0
 		s.txLeft = 1 + r.Intn(5)
+		if s.profile == "kvbig" {
+			s.bigTx++
+			if s.bigTx <= s.bigLoad {
+				s.txW = true
+				s.txLeft = 5 + r.Intn(4)
+			} else {
+				s.txW = r.Intn(6) == 0
+				s.txLeft = 3 + r.Intn(5)
+			}
+		}
 		if s.txW {
 			return "begin w"
 		}
@@ -899,6 +920,9 @@ func (s *dbSuite) genOp(r *rand.Rand, dead bool) string {
 	hb := hx([]byte(b))
 	now := s.now()
 	kind := s.profile
+	if kind == "kvbig" {
+		return s.genBigOp(r)
+	}
 	if kind == "backup" {
 		kind = "kv"
 	} else if kind == "mergekv" {
@@ -1120,3 +1144,78 @@ func (s *dbSuite) genVals(r *rand.Rand) [][]byte {
 }
 
 var _ = regexp.MustCompile
+
+
+// ---------------------------------------------------------------- kvbig: large buckets
+
+func (s *dbSuite) bigKey(r *rand.Rand) []byte {
+	switch r.Intn(12) {
+	case 0:
+		return [][]byte{[]byte("a"), []byte("o9"), []byte("p"), []byte("pz"), []byte("q"), []byte("p0"), {0x70, 0xff}}[r.Intn(7)]
+	case 1:
+		return []byte(fmt.Sprintf("n%02d", r.Intn(12)))
+	case 2:
+		return []byte(fmt.Sprintf("p0%d%c", r.Intn(4), 'a'+r.Intn(3)))
+	default:
+		return []byte(fmt.Sprintf("p%02d", r.Intn(48)))
+	}
+}
+
+func (s *dbSuite) genBigOp(r *rand.Rand) string {
+	b := "a"
+	if r.Intn(10) == 0 {
+		b = "ab"
+	}
+	hb := hx([]byte(b))
+	now := s.now()
+	if s.txW {
+		k := s.bigKey(r)
+		found := false
+		for _, u := range s.usedKeys[b] {
+			if string(u) == string(k) {
+				found = true
+			}
+		}
+		if !found {
+			s.usedKeys[b] = append(s.usedKeys[b], k)
+		}
+		if s.bigTx > s.bigLoad && r.Intn(3) == 0 {
+			return fmt.Sprintf("del %s %s %d", hb, hx(k), now)
+		}
+		ttl, ts := uint32(0), uint64(now)
+		if s.bigTx > s.bigLoad && r.Intn(4) == 0 {
+			ttl, ts = s.genTTL(r)
+		}
+		return fmt.Sprintf("put %s %s %s %d %d", hb, hx(k), hx(pickVal(r)), ttl, ts)
+	}
+	n := len(s.usedKeys[b])
+	pre := [][]byte{[]byte("p"), []byte("p0"), []byte("p1"), []byte("p2"), []byte("p3"), {}, []byte("n"), []byte("p00"), []byte("o"), []byte("q")}[r.Intn(10)]
+	switch r.Intn(10) {
+	case 0, 1, 2, 3, 4:
+		off := r.Intn(n + 2)
+		if r.Intn(2) == 0 {
+			off = r.Intn(12)
+		}
+		lim := 1 + r.Intn(6)
+		if r.Intn(4) == 0 {
+			lim = -1
+		}
+		return fmt.Sprintf("prefix %s %s %d %d %d", hb, hx(pre), off, lim, now)
+	case 5:
+		lim := r.Intn(8) + 1
+		if r.Intn(3) == 0 {
+			lim = -1
+		}
+		return fmt.Sprintf("psearch %s %s %d %d %d %d", hb, hx(pre), r.Intn(len(rxSet)), 0, lim, now)
+	case 6, 7:
+		k1, k2 := s.bigKey(r), s.bigKey(r)
+		if string(k1) > string(k2) && r.Intn(6) != 0 {
+			k1, k2 = k2, k1
+		}
+		return fmt.Sprintf("range %s %s %s %d", hb, hx(k1), hx(k2), now)
+	case 8:
+		return fmt.Sprintf("getall %s %d", hb, now)
+	default:
+		return fmt.Sprintf("get %s %s %d", hb, hx(s.bigKey(r)), now)
+	}
+}
